@@ -344,8 +344,12 @@ func TestInvoke(t *testing.T) {
 		std := []byte{0, 0, 0, 0, 0, 0, 0, 0, 0, 0, 0}
 		std = append(std, byte(len(inner)), byte(len(inner)>>8), byte(len(inner)>>16), byte(len(inner)>>24))
 		std = append(std, inner...)
+		stillRunning := false // a run with a limit >= 400 ended out of gas: the program loops, larger limits would not end
 		for _, lim := range c["limits"].([]any) {
 			limit := vfd.FromU64LE(lim)
+			if stillRunning && limit > 400 {
+				continue
+			}
 			rec := map[string]any{"k": "invoke", "id": c["id"], "prog": progJ, "limit": vfd.U64LE(limit), "gopanic": ""}
 			var r Psi_M_ReturnType
 			p, msg := vfd.Guard(func() {
@@ -359,6 +363,9 @@ func TestInvoke(t *testing.T) {
 				case ExitReasonType:
 					if v == OUT_OF_GAS {
 						rec["res"] = "oog"
+						if limit >= 400 {
+							stillRunning = true
+						}
 					} else {
 						rec["res"] = "panic"
 					}
